@@ -642,3 +642,311 @@ Proof.
   split; [exact A1|]. split; [exact A2|]. split; [exact A3|]. split; [exact B|]. split; [exact C|].
   split; [exact D1|]. split; [exact D2|]. split; [exact E1|exact E2].
 Qed.
+
+(** * the label numbering and the jumps do not depend on which labels get printed
+    (so the dry pass, which knows no label yet, sees exactly the jumps of the real pass) *)
+Section Indep.
+Variable g : grammar.
+Variable ast : bool.
+Variable inl asu : nat -> bool.
+Variable u1 u2 : nat -> bool.
+
+Definition same (r1 r2 : res) : Prop := snd (fst r1) = snd (fst r2) /\ jumps (fst (fst r1)) = jumps (fst (fst r2)).
+Definition fsame (f1 f2 : expr -> nat -> bool -> bool -> nat -> res) : Prop :=
+  forall e ko pd mk l, same (f1 e ko pd mk l) (f2 e ko pd mk l).
+
+Lemma jumps_lbl_if' u n : jumps (lbl_if u n) = [].
+Proof. unfold lbl_if. destruct (u n); reflexivity. Qed.
+
+Lemma jumps_block' b : jumps [KBlock b] = jumps b.
+Proof. unfold jumps. cbn [flat_map jumps1]. apply app_nil_r. Qed.
+
+Lemma seq_same f1 f2 : fsame f1 f2 -> forall es ko pd mk l ll1 ll2,
+  same (seq_emit f1 es ko pd mk l ll1) (seq_emit f2 es ko pd mk l ll2).
+Proof.
+  intros Hf. induction es as [|x es IH]; intros ko pd mk l ll1 ll2; cbn [seq_emit]; [split; reflexivity|].
+  destruct (Hf x ko pd mk l) as [E1 E2].
+  destruct (f1 x ko pd mk l) as [[c1 l1] b1]. destruct (f2 x ko pd mk l) as [[c2 l2] b2]. cbn [fst snd] in *. subst l2.
+  specialize (IH ko false false l1 (match c1 with [] => ll1 | _ => b1 end) (match c2 with [] => ll2 | _ => b2 end)).
+  destruct (seq_emit f1 es ko false false l1 _) as [[d1 m1] e1]. destruct (seq_emit f2 es ko false false l1 _) as [[d2 m2] e2].
+  destruct IH as [I1 I2]. unfold same in *. cbn [fst snd] in *. split; [exact I1|]. rewrite !jumps_app, E2, I2. reflexivity.
+Qed.
+
+Lemma alt_same f1 f2 : fsame f1 f2 -> forall es ko ok l,
+  snd (alt_emit u1 f1 es ko ok l) = snd (alt_emit u2 f2 es ko ok l) /\
+  jumps (fst (alt_emit u1 f1 es ko ok l)) = jumps (fst (alt_emit u2 f2 es ko ok l)).
+Proof.
+  intros Hf. induction es as [|x es IH]; intros ko ok l; cbn [alt_emit]; [split; reflexivity|].
+  destruct es as [|y es].
+  - destruct (Hf x ko false false l) as [E1 E2].
+    destruct (f1 x ko false false l) as [[c1 l1] b1]. destruct (f2 x ko false false l) as [[c2 l2] b2]. cbn [fst snd] in *. auto.
+  - destruct (Hf x l false false (S l)) as [E1 E2].
+    destruct (f1 x l false false (S l)) as [[c1 l1] b1]. destruct (f2 x l false false (S l)) as [[c2 l2] b2]. cbn [fst snd] in *. subst l2.
+    specialize (IH ko ok l1).
+    destruct (alt_emit u1 f1 (y :: es) ko ok l1) as [d1 m1]. destruct (alt_emit u2 f2 (y :: es) ko ok l1) as [d2 m2].
+    destruct IH as [I1 I2]. cbn [fst snd] in *. split; [exact I1|].
+    rewrite !jumps_app, !jumps_lbl_if', E2, I2. reflexivity.
+Qed.
+
+Lemma cases_same f1 f2 : fsame f1 f2 -> forall cs ko l,
+  snd (cases_emit f1 cs ko l) = snd (cases_emit f2 cs ko l) /\
+  flat_map jumps (fst (cases_emit f1 cs ko l)) = flat_map jumps (fst (cases_emit f2 cs ko l)).
+Proof.
+  intros Hf. induction cs as [|[keys b] cs IH]; intros ko l; cbn [cases_emit]; [split; reflexivity|].
+  destruct (Hf b ko true (Nat.ltb 1 (length keys)) l) as [E1 E2].
+  destruct (f1 b ko true _ l) as [[c1 l1] b1]. destruct (f2 b ko true _ l) as [[c2 l2] b2]. cbn [fst snd] in *. subst l2.
+  specialize (IH ko l1). destruct (cases_emit f1 cs ko l1) as [d1 m1]. destruct (cases_emit f2 cs ko l1) as [d2 m2].
+  destruct IH as [I1 I2]. cbn [fst snd flat_map] in *. split; [exact I1|].
+  rewrite !jumps_app, E2, I2. destruct b1, b2; reflexivity.
+Qed.
+
+Lemma ipush_same f1 f2 : fsame f1 f2 -> forall r ko pd mk l, same (ipush_emit g f1 r ko pd mk l) (ipush_emit g f2 r ko pd mk l).
+Proof.
+  intros Hf r ko pd mk l. unfold ipush_emit. destruct (nth_error g r) as [[b|k|]|]; try (split; reflexivity).
+  destruct (Hf b ko pd mk (S l)) as [E1 E2].
+  destruct (f1 b ko pd mk (S l)) as [[c1 l1] b1]. destruct (f2 b ko pd mk (S l)) as [[c2 l2] b2]. cbn [fst snd] in *.
+  unfold same. cbn [fst snd]. split; [exact E1|]. rewrite !jumps_block', !jumps_cons, !jumps_app, E2. reflexivity.
+Qed.
+
+Lemma emit_same n : fsame (emit g ast inl asu u1 n) (emit g ast inl asu u2 n).
+Proof.
+  induction n as [|n IH]; intros e ko pd mk l; [split; reflexivity|].
+  destruct e; cbn [emit]; try (split; reflexivity).
+  - destruct (inl r); [|destruct (asu r); split; reflexivity].
+    pose proof (ipush_same _ _ IH r ko pd mk l) as [E1 E2].
+    destruct (ipush_emit g (emit g ast inl asu u1 n) r ko pd mk l) as [[c1 l1] b1].
+    destruct (ipush_emit g (emit g ast inl asu u2 n) r ko pd mk l) as [[c2 l2] b2]. split; assumption.
+  - apply seq_same. exact IH.
+  - pose proof (alt_same _ _ IH es ko l (S l)) as [E1 E2].
+    destruct (alt_emit u1 _ es ko l (S l)) as [c1 l1]. destruct (alt_emit u2 _ es ko l (S l)) as [c2 l2]. cbn [fst snd] in *.
+    unfold same; cbn [fst snd]. split; [exact E1|]. rewrite !jumps_app, !jumps_block', !jumps_lbl_if'. rewrite !jumps_cons. cbn [jumps1 app]. rewrite E2. reflexivity.
+  - destruct (IH e ko false false (S l)) as [E1 E2].
+    destruct (emit g ast inl asu u1 n e ko false false (S l)) as [[c1 l1] b1]. destruct (emit g ast inl asu u2 n e ko false false (S l)) as [[c2 l2] b2].
+    unfold same; cbn [fst snd] in *. split; [exact E1|]. rewrite !jumps_block', !jumps_cons, !jumps_app, E2. reflexivity.
+  - destruct (IH e l false false (S l)) as [E1 E2].
+    destruct (emit g ast inl asu u1 n e l false false (S l)) as [[c1 l1] b1]. destruct (emit g ast inl asu u2 n e l false false (S l)) as [[c2 l2] b2].
+    unfold same; cbn [fst snd] in *. split; [exact E1|]. rewrite !jumps_block', !jumps_cons, !jumps_app, !jumps_lbl_if', E2. reflexivity.
+  - destruct (IH e l false false (S (S l))) as [E1 E2].
+    destruct (emit g ast inl asu u1 n e l false false (S (S l))) as [[c1 l1] b1]. destruct (emit g ast inl asu u2 n e l false false (S (S l))) as [[c2 l2] b2].
+    unfold same; cbn [fst snd] in *. split; [exact E1|]. rewrite !jumps_app, !jumps_block', !jumps_cons, !jumps_app, !jumps_lbl_if', E2. reflexivity.
+  - destruct (IH e (S l) false false (S (S l))) as [E1 E2].
+    destruct (emit g ast inl asu u1 n e (S l) false false (S (S l))) as [[c1 l1] b1]. destruct (emit g ast inl asu u2 n e (S l) false false (S (S l))) as [[c2 l2] b2].
+    unfold same; cbn [fst snd] in *. split; [exact E1|]. rewrite !jumps_app, !jumps_block', !jumps_cons, !jumps_app, !jumps_lbl_if', E2. reflexivity.
+  - destruct (IH e ko false false (S (S l))) as [E1 E2].
+    destruct (emit g ast inl asu u1 n e ko false false (S (S l))) as [[c1 l1] b1]. destruct (emit g ast inl asu u2 n e ko false false (S (S l))) as [[c2 l2] b2].
+    cbn [fst snd] in *. subst l2.
+    destruct (IH e (S l) false false l1) as [F1 F2].
+    destruct (emit g ast inl asu u1 n e (S l) false false l1) as [[d1 m1] e1]. destruct (emit g ast inl asu u2 n e (S l) false false l1) as [[d2 m2] e2].
+    unfold same; cbn [fst snd] in *. split; [exact F1|]. rewrite !jumps_app, !jumps_block', !jumps_cons, !jumps_app, !jumps_lbl_if', E2, F2. reflexivity.
+  - destruct (IH e ko pd mk (S l)) as [E1 E2].
+    destruct (emit g ast inl asu u1 n e ko pd mk (S l)) as [[c1 l1] b1]. destruct (emit g ast inl asu u2 n e ko pd mk (S l)) as [[c2 l2] b2].
+    unfold same; cbn [fst snd] in *. split; [exact E1|]. rewrite !jumps_block', !jumps_cons, !jumps_app, E2. reflexivity.
+  - pose proof (cases_same _ _ IH cs ko (S l)) as [E1 E2].
+    destruct (cases_emit (emit g ast inl asu u1 n) cs ko (S l)) as [k1 l1]. destruct (cases_emit (emit g ast inl asu u2 n) cs ko (S l)) as [k2 l2].
+    cbn [fst snd] in *. subst l2.
+    destruct (IH e ko false false l1) as [F1 F2].
+    destruct (emit g ast inl asu u1 n e ko false false l1) as [[d1 m1] e1]. destruct (emit g ast inl asu u2 n e ko false false l1) as [[d2 m2] e2].
+    unfold same; cbn [fst snd] in *. split; [exact F1|]. rewrite !jumps_app, !jumps_block', !jumps_lbl_if'.
+    rewrite !app_nil_r.
+    assert (JS : forall cls d, jumps [KSwitch cls d] = flat_map jumps cls ++ jumps d).
+    { intros cls d. unfold jumps. cbn [flat_map jumps1]. rewrite app_nil_r. reflexivity. }
+    rewrite !JS, E2, !jumps_app, F2. destruct e1, e2; reflexivity.
+Qed.
+End Indep.
+
+(** * a whole rule function *)
+Definition fn_ok (F : list code) : Prop :=
+  NoDup (lbls F) /\ scoped [] F = true /\ (forall x, In x (lbls F) -> In x (jumps F)) /\
+  head_decls F = true /\ forallb decl1 F = true /\ forallb cases1 F = true.
+
+Lemma rule_emit_wf g ast inl asu used n r ko F l1 :
+  rule_emit g ast inl asu used n r ko = (F, l1) ->
+  (forall j, In j (jumps F) -> used j = true) ->
+  S ko <= l1 /\
+  (forall j, In j (jumps F) -> ko <= j < l1) /\
+  (forall x, In x (lbls F) -> ko <= x < l1 /\ used x = true) /\
+  NoDup (lbls F) /\ scoped [] F = true /\
+  head_decls F = true /\ forallb decl1 F = true /\ forallb cases1 F = true.
+Proof.
+  unfold rule_emit. destruct (ipush_emit g (emit g ast inl asu used n) r ko false false (S ko)) as [[c lx] llx] eqn:Ec.
+  intros H Hu. inv H.
+  assert (Em : Em ast used ko (S ko) c l1 llx).
+  { eapply ipush_emit_Em; [|exact Ec]. intros. eapply emit_Em; eauto. }
+  destruct (proj1 (ranges ast used) _ _ _ _ _ Em) as (A1 & A2 & A3).
+  pose proof (proj1 (labels_unique ast used) _ _ _ _ _ Em) as B.
+  pose proof (proj1 (gotos_in_scope ast used) _ _ _ _ _ Em) as C.
+  destruct (proj1 (flag_exact_and_cases ast used) _ _ _ _ _ Em) as (_ & D2).
+  destruct (proj1 (declarations_at_head ast used) _ _ _ _ _ Em) as (E1 & E2).
+  set (pre1 := if ast then [KSt] else []) in *.
+  set (pre2 := if (ast || used ko)%bool then [KSave ko] else []) in *.
+  set (post := pre1 ++ KSt :: (if used ko then KLbl ko :: pre1 ++ [KRestore ko; KSt] else [])) in *.
+  assert (Jpre1 : jumps pre1 = []) by (unfold pre1; destruct ast; reflexivity).
+  assert (Jpre2 : jumps pre2 = []) by (unfold pre2; destruct ast, (used ko); reflexivity).
+  assert (Jpost : jumps post = []) by (unfold post, pre1; destruct ast, (used ko); reflexivity).
+  assert (Lpre1 : lbls pre1 = []) by (unfold pre1; destruct ast; reflexivity).
+  assert (Lpre2 : lbls pre2 = []) by (unfold pre2; destruct ast, (used ko); reflexivity).
+  assert (Lpost : lbls post = if used ko then [ko] else []) by (unfold post, pre1; destruct ast, (used ko); reflexivity).
+  assert (Dpost : dlbls post = if used ko then [ko] else []) by (unfold post, pre1; destruct ast, (used ko); reflexivity).
+  assert (JF : jumps (pre1 ++ pre2 ++ c ++ post) = jumps c) by (rewrite !jumps_app, Jpre1, Jpre2, Jpost, app_nil_r; reflexivity).
+  assert (LF : lbls (pre1 ++ pre2 ++ c ++ post) = lbls c ++ (if used ko then [ko] else [])) by (rewrite !lbls_app, Lpre1, Lpre2, Lpost; reflexivity).
+  rewrite JF in Hu.
+  split; [lia|]. split; [|split; [|split; [|split; [|split; [|split]]]]].
+  - intros j Hj. rewrite JF in Hj. destruct (A2 _ Hj); lia.
+  - intros x Hx. rewrite LF in Hx. apply in_app_or in Hx as [Hx|Hx].
+    + destruct (A3 _ Hx). split; [lia|auto].
+    + destruct (used ko) eqn:Eu; [|destruct Hx]. destruct Hx as [<-|[]]. split; [lia|exact Eu].
+  - rewrite LF. apply nodup_app; [exact B|destruct (used ko); repeat constructor; intros []|].
+    intros x Hx Hk. destruct (A3 _ Hx). destruct (used ko); [|destruct Hk]. destruct Hk as [<-|[]]. lia.
+  - apply scoped_app; [unfold pre1; destruct ast; reflexivity|].
+    apply scoped_app; [unfold pre2; destruct ast, (used ko); reflexivity|].
+    apply scoped_app; [|unfold post, pre1; destruct ast, (used ko); reflexivity].
+    eapply (scoped_into ko); [apply C; exact Hu|]. intros Hj. rewrite Dpost, (Hu _ Hj). left. reflexivity.
+  - assert (Np : nodecl (c ++ post) = true).
+    { unfold nodecl. rewrite forallb_app. fold (nodecl c). rewrite E1. unfold post, pre1. destruct ast, (used ko); reflexivity. }
+    unfold pre1, pre2. destruct ast; cbn [orb app].
+    + unfold head_decls. cbn [drop_while is_st is_decl]. apply (nodecl_suffix is_decl). exact Np.
+    + destruct (used ko) eqn:Eu; cbn [app].
+      * apply head_decls_cons; [reflexivity|exact Np].
+      * apply head_decls_nodecl. exact Np.
+  - rewrite !forallb_app, E2. unfold pre1, pre2, post, pre1. destruct ast, (used ko); reflexivity.
+  - rewrite !forallb_app, D2. unfold pre1, pre2, post, pre1. destruct ast, (used ko); reflexivity.
+Qed.
+
+(** * the whole file: the labels printed are exactly the labels jumped to *)
+Section File.
+Variable g : grammar.
+Variable ast inline : bool.
+Variable asu : nat -> bool.
+Variable cr : list bool * list nat.
+Variable fl : nat.
+Notation undef := (fun _ : nat => false).        (* no name without a definition *)
+Notation pass := (pass g ast inline asu undef cr fl).
+Notation once := (once inline cr).
+
+Definition all_jumps (l : list (option (list code))) : list nat :=
+  flat_map (fun o => match o with Some c => jumps c | None => [] end) l.
+
+Lemma rule_emit_same u1 u2 n r ko :
+  snd (rule_emit g ast once asu u1 n r ko) = snd (rule_emit g ast once asu u2 n r ko) /\
+  jumps (fst (rule_emit g ast once asu u1 n r ko)) = jumps (fst (rule_emit g ast once asu u2 n r ko)).
+Proof.
+  unfold rule_emit.
+  destruct (ipush_same g _ _ (emit_same g ast once asu u1 u2 n) r ko false false (S ko)) as [E1 E2].
+  destruct (ipush_emit g (emit g ast once asu u1 n) r ko false false (S ko)) as [[c1 l1] b1].
+  destruct (ipush_emit g (emit g ast once asu u2 n) r ko false false (S ko)) as [[c2 l2] b2].
+  cbn [fst snd] in *. split; [exact E1|].
+  rewrite !jumps_app, E2.
+  assert (Z : forall u, jumps (if ast then [KSt] else []) = [] /\ jumps (if (ast || u ko)%bool then [KSave ko] else []) = [] /\
+                        jumps [KSt] = [] /\ jumps (if u ko then [KLbl ko] ++ (if ast then [KSt] else []) ++ [KRestore ko; KSt] else []) = []).
+  { intros u. destruct ast, (u ko); repeat split; reflexivity. }
+  destruct (Z u1) as (Z1 & Z2 & Z3 & Z4). destruct (Z u2) as (_ & Y2 & _ & Y4).
+  rewrite Z1, Z2, Z3, Z4, Y2, Y4. reflexivity.
+Qed.
+
+Lemma pass_same u1 u2 b1 b2 rs : forall r l,
+  map (option_map jumps) (pass b1 u1 rs r l) = map (option_map jumps) (pass b2 u2 rs r l).
+Proof.
+  induction rs as [|rb rs IH]; intros r l; [reflexivity|].
+  assert (Step : forall b u, Emit.pass g ast inline asu (fun _ : nat => false) cr fl b u (rb :: rs) r l =
+            if (match rb with RNil => true | _ => false end) then None :: pass b u rs (S r) l
+            else if negb (reached cr r) then None :: pass b u rs (S r) (S l)
+            else if (once r && negb (l =? 0))%bool then None :: pass b u rs (S r) (S l)
+            else let '(c, l1) := rule_emit g ast once asu u fl r l in Some c :: pass b u rs (S r) l1).
+  { intros b u. cbn [Emit.pass]. destruct rb; reflexivity. }
+  rewrite !Step. destruct (match rb with RNil => true | _ => false end).
+  - cbn [map option_map]. rewrite IH. reflexivity.
+  - destruct (negb (reached cr r)); [cbn [map option_map]; rewrite IH; reflexivity|].
+    destruct (once r && negb (l =? 0))%bool; [cbn [map option_map]; rewrite IH; reflexivity|].
+    destruct (rule_emit_same u1 u2 fl r l) as [E1 E2].
+    destruct (rule_emit g ast once asu u1 fl r l) as [c1 l1]. destruct (rule_emit g ast once asu u2 fl r l) as [c2 l2].
+    cbn [fst snd] in *. subst l2. cbn [map option_map]. rewrite E2, IH. reflexivity.
+Qed.
+
+Lemma all_jumps_map l1 l2 : map (option_map jumps) l1 = map (option_map jumps) l2 -> all_jumps l1 = all_jumps l2.
+Proof.
+  revert l2. induction l1 as [|o1 l1 IH]; intros [|o2 l2] H; try discriminate; [reflexivity|].
+  cbn [map] in H. inv H. unfold all_jumps. cbn [flat_map]. fold (all_jumps l1). fold (all_jumps l2). rewrite (IH _ H2).
+  destruct o1, o2; cbn [option_map] in *; try discriminate; [inv H1; rewrite H0; reflexivity|reflexivity].
+Qed.
+
+Definition fn_facts (used : nat -> bool) (lo : nat) (F : list code) : Prop :=
+  NoDup (lbls F) /\ scoped [] F = true /\ head_decls F = true /\ forallb decl1 F = true /\ forallb cases1 F = true /\
+  (forall x, In x (lbls F) -> lo <= x /\ used x = true) /\ (forall j, In j (jumps F) -> lo <= j).
+
+Lemma fn_facts_weaken used lo lo' F : lo' <= lo -> fn_facts used lo F -> fn_facts used lo' F.
+Proof.
+  intros L (a & b & c & d & e & f & h). unfold fn_facts. split; [exact a|]. split; [exact b|]. split; [exact c|]. split; [exact d|]. split; [exact e|].
+  split; [intros x Hx; destruct (f x Hx); split; [lia|assumption]|intros j Hj; specialize (h j Hj); lia].
+Qed.
+
+Lemma pass_wf used rs : forall r l,
+  (forall j, In j (all_jumps (pass true used rs r l)) -> used j = true) ->
+  Forall (fun o => match o with Some F => fn_facts used l F | None => True end) (pass true used rs r l) /\
+  (forall F x, In (Some F) (pass true used rs r l) -> In x (lbls F) -> In x (all_jumps (pass true used rs r l)) -> In x (jumps F)).
+Proof.
+  induction rs as [|rb rs IH]; intros r l Hu; cbn [Emit.pass] in *; [split; [constructor|intros F x []]|].
+  destruct (match rb with RNil => if false then true else true | _ => false end).
+  { unfold all_jumps in Hu. cbn [flat_map app] in Hu. destruct (IH (S r) l Hu) as [I1 I2].
+    split; [constructor; [exact I|exact I1]|]. intros F x [E|Hin]; [discriminate|]. unfold all_jumps. cbn [flat_map app]. apply I2. exact Hin. }
+  destruct (negb (reached cr r)).
+  { unfold all_jumps in Hu. cbn [flat_map app] in Hu. destruct (IH (S r) (S l) Hu) as [I1 I2].
+    split.
+    - constructor; [exact I|]. eapply Forall_impl; [|exact I1]. intros [F|] HF; [|exact I].
+      eapply fn_facts_weaken; [|exact HF]. lia.
+    - intros F x [E|Hin]; [discriminate|]. unfold all_jumps. cbn [flat_map app]. apply I2. exact Hin. }
+  destruct (once r && negb (l =? 0))%bool.
+  { unfold all_jumps in Hu. cbn [flat_map app] in Hu. destruct (IH (S r) (S l) Hu) as [I1 I2].
+    split.
+    - constructor; [exact I|]. eapply Forall_impl; [|exact I1]. intros [F|] HF; [|exact I].
+      eapply fn_facts_weaken; [|exact HF]. lia.
+    - intros F x [E|Hin]; [discriminate|]. unfold all_jumps. cbn [flat_map app]. apply I2. exact Hin. }
+  destruct (rule_emit g ast once asu used fl r l) as [F0 l1] eqn:EF.
+  unfold all_jumps in Hu. cbn [flat_map] in Hu. fold (all_jumps (pass true used rs (S r) l1)) in Hu.
+  assert (Hu0 : forall j, In j (jumps F0) -> used j = true) by (intros j Hj; apply Hu; apply in_or_app; left; exact Hj).
+  assert (Hu1 : forall j, In j (all_jumps (pass true used rs (S r) l1)) -> used j = true) by (intros j Hj; apply Hu; apply in_or_app; right; exact Hj).
+  destruct (rule_emit_wf _ _ _ _ _ _ _ _ _ _ EF Hu0) as (W1 & W2 & W3 & W4 & W5 & W6 & W7 & W8).
+  destruct (IH (S r) l1 Hu1) as [I1 I2].
+  assert (Rest : forall F, In (Some F) (pass true used rs (S r) l1) -> (forall x, In x (lbls F) -> l1 <= x) /\ (forall j, In j (jumps F) -> l1 <= j)).
+  { intros F HF. rewrite Forall_forall in I1. specialize (I1 _ HF). cbn in I1. destruct I1 as (_ & _ & _ & _ & _ & f & h).
+    split; [intros x Hx; destruct (f x Hx); auto|exact h]. }
+  assert (RestJ : forall j, In j (all_jumps (pass true used rs (S r) l1)) -> l1 <= j).
+  { intros j Hj. unfold all_jumps in Hj. apply in_flat_map in Hj as ([F|] & HF & Hj); [|destruct Hj]. destruct (Rest F HF) as [_ h]. auto. }
+  split.
+  - constructor.
+    + unfold fn_facts. split; [exact W4|]. split; [exact W5|]. split; [exact W6|]. split; [exact W7|]. split; [exact W8|].
+      split; [intros y Hy; destruct (W3 y Hy); split; [lia|assumption]|intros y Hy; destruct (W2 y Hy); lia].
+    + eapply Forall_impl; [|exact I1]. intros [F|] HF; [|exact I].
+      eapply fn_facts_weaken; [|exact HF]. lia.
+  - intros F x [E|Hin] Hx Hj.
+    + inv E. unfold all_jumps in Hj. cbn [flat_map] in Hj. apply in_app_or in Hj as [Hj|Hj]; [exact Hj|].
+      fold (all_jumps (pass true used rs (S r) l1)) in Hj. specialize (RestJ _ Hj). destruct (W3 x Hx). lia.
+    + unfold all_jumps in Hj. cbn [flat_map] in Hj. apply in_app_or in Hj as [Hj|Hj].
+      * destruct (Rest F Hin) as [f _]. specialize (f x Hx). destruct (W2 x Hj). lia.
+      * apply I2; auto.
+Qed.
+
+End File.
+
+(** every rule function of a generated file is well formed as far as labels, gotos, declarations and
+    case clauses go (grammars in which every name is defined) *)
+Theorem emit_all_wellformed g ast inline asu :
+  Forall (fun o => match o with Some F => fn_ok F | None => True end) (emit_all g ast inline asu (fun _ => false)).
+Proof.
+  unfold emit_all.
+  set (cr := count_rules g). set (fl := fuel g).
+  set (dj := dry_jumps_of g ast inline asu (fun _ => false) cr fl).
+  set (used := used_of dj).
+  assert (Ej : all_jumps (pass g ast inline asu (fun _ => false) cr fl true used g 0 0) = dj).
+  { unfold dj, dry_jumps_of. apply all_jumps_map. apply pass_same. }
+  assert (Hused : forall x, used x = true <-> In x dj).
+  { intros x. unfold used, used_of. rewrite existsb_exists. split.
+    - intros (y & Hy & E). apply Nat.eqb_eq in E. subst. exact Hy.
+    - intros H. exists x. split; [exact H|apply Nat.eqb_refl]. }
+  destruct (pass_wf g ast inline asu cr fl used g 0 0) as [W1 W2].
+  { intros j Hj. apply Hused. rewrite <- Ej. exact Hj. }
+  apply Forall_forall. intros o Ho. rewrite Forall_forall in W1. specialize (W1 o Ho).
+  destruct o as [F|]; [|exact I].
+  destruct W1 as (a & b & c & d & e & f & h).
+  unfold fn_ok. split; [exact a|]. split; [exact b|]. split; [|auto].
+  intros x Hx. apply (W2 F x Ho Hx). rewrite Ej. apply Hused. destruct (f x Hx). assumption.
+Qed.
